@@ -233,3 +233,91 @@ contract(F, 'Pstutter.__embed__', props=('C13',), params={'self': 'self', 'inval
          policies={'sc3/base/stream.py::stream': make_stream(stream_kind)},
          class_modules={'Pstutter': F}, hooks={'getattr': h_getattr, 'ext': h_ext},
          opts={'generator_trace': True}, native=False)
+
+
+# ---- function filters: Pcollect / Pselect / Preject / Pwhile -----------------------------------------
+# fn.value(func, ...) is an uninterpreted call ('apply', args, result); the result is a boolean for the
+# two selecting filters and the loop test, any value for Pcollect.
+FN = 'sc3/base/functions.py'
+
+
+def value_pol(kind):
+    def pol(eng, selfv, args, kwargs, st, node):
+        r = eng.fresh_val(kind, 'applied')
+        st.trace.append(('apply', tuple(args), r))
+        return [(st, r)]
+    return pol
+
+
+def fcompare(eng, op, a, b, st, node):
+    import ast
+    # `x is True` / `x is False` on the boolean result of the function
+    if isinstance(op, (ast.Is, ast.IsNot)) and a.k == 'bool' and b.k == 'bool':
+        r = a.z == b.z
+        return z3.Not(r) if isinstance(op, ast.IsNot) else r
+    return None
+
+
+def func_pass(mode):
+    def inv(c, L):
+        ev = events(c, 0)
+        if not ev:
+            return z3.BoolVal(True)
+        ev = [e for e in since(c.trace, 0) if e[0] in ('draw', 'apply', 'yield', 'exhausted')]
+        head_inval = c.st.ghost.get('inval_at_head')
+        if len(ev) < 2 or ev[0][0] != 'draw' or ev[1][0] != 'apply':
+            return z3.BoolVal(False)
+        drawn, applied = ev[0][2], ev[1]
+        func = c.pre.self.v('func')
+        args_ok = (len(applied[1]) == 3 and applied[1][0].k == func.k and applied[1][0].oid == func.oid
+                   and applied[1][1] is drawn and applied[1][2] is head_inval           # func(value, input value)
+                   and ev[0][3] is head_inval)                                          # the source gets the input value
+        ys = [e for e in ev[2:] if e[0] == 'yield']
+        if not args_ok or len(ev) != 2 + len(ys) or len(ys) > 1:
+            return z3.BoolVal(False)
+        if mode == 'collect':
+            return z3.BoolVal(len(ys) == 1 and ys[0][1] is applied[2])                  # the function's result is yielded
+        keep = applied[2].z if mode == 'select' else z3.Not(applied[2].z)
+        if ys:
+            return z3.And(keep, z3.BoolVal(ys[0][1] is drawn))                          # kept: the value itself
+        return z3.Not(keep)                                                             # dropped: nothing yielded
+    return inv
+
+
+for cls, mode, kind in (('Pcollect', 'collect', 'any'), ('Pselect', 'select', 'bool'), ('Preject', 'reject', 'bool')):
+    contract(F, cls + '.__embed__', props=('C13',), params={'self': 'self', 'inval': 'obj'},
+             ensures=[('ends-quietly-when-the-source-ends', quiet_end)],
+             fields={cls: {'pattern': 'obj', 'func': 'obj'}},
+             loops={0: Loop(inv=func_pass(mode), kinds={'inval': 'obj', 'outval': 'any'},
+                            havoc_hook=remember('inval'))},
+             policies={'sc3/base/stream.py::stream': make_stream('any'), FN + '::value': value_pol(kind)},
+             hooks={'getattr': h_getattr, 'compare': fcompare}, class_modules={cls: F},
+             opts={'generator_trace': True}, native=False,
+             note='the function returns a bool (Pselect/Preject compare with `is True` / `is False`: a truthy '
+                  'non-bool result selects nothing - bounded driver)' if mode != 'collect' else None)
+
+
+def pwhile_pass(c, L):
+    ev = since(c.trace, 0)
+    if not ev:
+        return z3.BoolVal(True)
+    ev = [e for e in ev if e[0] in ('apply', 'embed', 'yield-from', 'yield')]
+    # test(func, inval) was true at the head; then exactly one embed of the pattern with that input value
+    if [e[0] for e in ev] != ['apply', 'embed', 'yield-from']:
+        return z3.BoolVal(False)
+    pat = c.pre.self.v('pattern')
+    head_inval = c.st.ghost.get('inevent_at_head') or c.st.ghost.get('inval_at_head')
+    ok = (ev[1][1].k == pat.k and ev[1][1].oid == pat.oid and ev[1][2] is head_inval
+          and ev[2][1] is ev[1][3] and c.st.env['inval'] is ev[2][2]
+          and len(ev[0][1]) == 2 and ev[0][1][1] is head_inval)
+    return z3.And(z3.BoolVal(bool(ok)), ev[0][2].z)
+
+
+contract(F, 'Pwhile.__embed__', props=('C13',), params={'self': 'self', 'inval': 'obj'},
+         ensures=[('returns-the-threaded-input-value-once-the-test-fails', lambda c: z3.BoolVal(
+             c.resultv is c.st.env['inval']))],
+         fields={'Pwhile': {'pattern': 'obj', 'func': 'obj'}},
+         loops={0: Loop(inv=pwhile_pass, kinds={'inval': 'obj'}, havoc_hook=remember('inval'))},
+         policies={'sc3/base/stream.py::embed': embed_pol, FN + '::value': value_pol('bool')},
+         hooks={'getattr': h_getattr}, class_modules={'Pwhile': F},
+         opts={'generator_trace': True}, native=False)
